@@ -77,7 +77,7 @@ def rand_cells(n, max_e, seed):
             e = len(w)
         limit = rnd.choice([0, 0, rnd.randint(1, 3 * e + 2), rnd.randint(1, e + 1)])
         passes = rnd.choice([0, 0, 1, 2, 3, 5])
-        cut = rnd.choice([0, 0, rnd.randint(1, 2 * e + 1)])
+        cut = rnd.choice([0, 0, -1, rnd.randint(1, 2 * e + 1), rnd.randint(1, 2 * e + 1)])
         out.append({"id": RAND_BASE + i, "kind": kind, "preload": pre, "limit": limit, "passes": passes, "w": w,
                     "nc": rnd.randint(1, 8), "cut": cut})
     return out
@@ -87,7 +87,7 @@ def cell_sig(o):
     mode = "preload" if o["preload"] else "stream"
     lim = "limit>0" if o["limit"] else "limit=0"
     pas = "passes>0" if o["passes"] else "passes=0"
-    cut = " cut" if o["cut"] else ""
+    cut = " cut" if o["cut"] > 0 else (" precancel" if o["cut"] < 0 else "")
     return "provider=%s mode=%s %s %s%s" % (o["kind"], mode, lim, pas, cut)
 
 
@@ -204,11 +204,24 @@ def run(tier, v):
     kinds = sorted({(o["kind"], o["preload"]) for o in rows})
     nontrivial = len({(o["kind"], o["preload"], o["limit"], o["passes"], tuple(o["w"]), o["nc"], o["cut"])
                       for o in rows if not o["skipped"] and (o["limit"] or o["passes"] or o["cut"])})
-    samples = [{k: o[k] for k in ("kind", "preload", "limit", "passes", "nc", "cut", "shape", "via", "count", "eofs",
-                                  "run_class", "cancelled", "drained", "eof_after", "ret_us", "eng_class", "eng_shots")}
-               | {"w": o["w"] if len(o["w"]) < 8 else "%d x 1" % len(o["w"]),
-                  "hist": o["hist"] if len(o["hist"]) < 8 else o["hist"][:4] + ["..."]}
-               for o in rows[5::max(1, len(rows) // 6)]][:6]
+    def brief(o):
+        return {k: o[k] for k in ("kind", "preload", "limit", "passes", "nc", "cut", "shape", "via", "count", "eofs",
+                                  "run_class", "cancelled", "drained", "eof_after", "ret_us", "eng_class", "eng_shots")} \
+            | {"w": o["w"] if len(o["w"]) < 8 else "%d x 1" % len(o["w"]),
+               "hist": o["hist"] if len(o["hist"]) < 8 else o["hist"][:4] + ["..."]}
+    picks = [lambda o: o["limit"] and not o["passes"] and not o["cut"] and o["preload"],
+             lambda o: o["passes"] and not o["limit"] and not o["cut"] and o["kind"] == "jsonarray",
+             lambda o: o["limit"] and o["passes"] and o["kind"] in ("httpscn", "grpcscn") and len(o["w"]) > 1 and not o["cut"],
+             lambda o: o["kind"] == "grpcjson" and o["limit"] and not o["passes"] and not o["cut"],
+             lambda o: o["kind"] == "json" and o["passes"] > 1 and o["cut"],
+             lambda o: not o["limit"] and not o["passes"] and not o["cut"] and o["nc"] > 1,
+             lambda o: o["id"] >= RAND_BASE and o["limit"]]
+    samples = []
+    for i, pk in enumerate(picks):
+        hit = [o for o in rows if not o["skipped"] and pk(o)]
+        if hit:
+            samples.append(brief(hit[(vlib.seed() * 31 + i * 7) % len(hit)]))
+    samples = samples or [brief(rows[0])]
     ret = sorted(o["ret_us"] for o in rows if o["cancelled"] and o["run_ret"])
     cov = {
         "states": states, "transitions": trans,
